@@ -70,7 +70,7 @@ def main():
                     # top-level tests of each failing package alone; they must pass on their own.
                     import re as _re
                     fails = sorted(set(_re.findall(r"^--- FAIL: (\w+)", out, flags=_re.M)))
-                    pkgs = sorted(set(_re.findall(r"^FAIL\s+(\S+)\s", out, flags=_re.M)))
+                    pkgs = sorted(set(x for x in _re.findall(r"^FAIL\s+(\S+)\s", out, flags=_re.M) if "/" in x))
                     res["existing_tests_first_run_failures"] = fails
                     if fails and pkgs and "panic: test timed out" not in out:
                         ok = True
@@ -82,6 +82,13 @@ def main():
                                 res["existing_tests_out"] = out2[-1500:]
                         rc = 0 if ok else 1
                         res["existing_tests_rerun_alone_pass"] = ok
+                    elif "panic: test timed out" not in out:
+                        # a crash without a named failing test (e.g. the mmap'd query log fault of
+                        # TestQueryConcurrency under load): run the whole command once more
+                        rc, out = sh(cmd, cwd=wt, env=env, timeout=6000)
+                        res["existing_tests_second_full_run"] = rc == 0
+                        if rc != 0:
+                            res["existing_tests_out"] = out[-1500:]
                     else:
                         res["existing_tests_out"] = out[-1500:]
                 res["existing_tests_pass_with_patch"] = rc == 0
